@@ -79,7 +79,7 @@ def gen_reject(rng):
 
 
 def generate(rng, tier):
-    n = 110 if tier == "quick" else 300
+    n = 110 if tier == "quick" else 150
     return [gen_valid(rng, tier) for _ in range(n)] + [gen_reject(rng) for _ in range(max(8, n // 12))]
 
 
